@@ -201,7 +201,8 @@ fn build_binary_op(
         let use_bounds = e.push_bounds_to(&mut wcb);
         let mut values = Vec::new();
         for field in fields {
-            let field_ty = &ref_target(&field.field.ty);
+            // `Self` in a field type is the struct, also inside the impls for `&Self`
+            let field_ty = &ref_target(&expand_self(&field.field.ty, &this_ty));
             let lhs = with_ref(&member(quote!(self), field), lhs_is_ref);
             let rhs = with_ref(&member(quote!(__rhs), field), rhs_is_ref);
             let lhs_ty = with_ref(field_ty, lhs_is_ref);
@@ -210,11 +211,14 @@ fn build_binary_op(
             field.push_bounds_to(use_bounds, kind, &mut wcb);
         }
         let ctor_args = build_ctor_args(&item.fields, &values);
-        let wheres = wcb.build(|ty| match (lhs_is_ref, rhs_is_ref) {
+        let wheres = wcb.build(|ty| {
+            let ty = &expand_self(ty, &this_ty);
+            match (lhs_is_ref, rhs_is_ref) {
             (true, true) => quote!(for<'__a> &'__a #ty : #trait_<&'__a #ty, Output = #ty>),
             (true, false) => quote!(for<'__a> &'__a #ty : #trait_<#ty, Output = #ty>),
             (false, true) => quote!(for<'__a> #ty : #trait_<&'__a #ty, Output = #ty>),
             (false, false) => quote!(#ty : #trait_<#ty, Output = #ty>),
+            }
         });
         quote! {
             #[automatically_derived]
@@ -302,16 +306,19 @@ fn build_unary_op(
         let use_bounds = e.push_bounds_to(&mut wcb);
         let mut values = Vec::new();
         for field in fields {
-            let field_ty = &ref_target(&field.field.ty);
+            let field_ty = &ref_target(&expand_self(&field.field.ty, &this_ty));
             let lhs = with_ref(&member(quote!(self), field), lhs_is_ref);
             let lhs_ty = with_ref(field_ty, lhs_is_ref);
             values.push(quote!(<#lhs_ty as #trait_>::#func_name(#lhs)));
             field.push_bounds_to(use_bounds, kind, &mut wcb);
         }
         let ctor_args = build_ctor_args(&item.fields, &values);
-        let wheres = wcb.build(|ty| match lhs_is_ref {
-            true => quote!(for<'__a> &'__a #ty : #trait_<Output = #ty>),
-            false => quote!(#ty : #trait_<Output = #ty>),
+        let wheres = wcb.build(|ty| {
+            let ty = &expand_self(ty, &this_ty);
+            match lhs_is_ref {
+                true => quote!(for<'__a> &'__a #ty : #trait_<Output = #ty>),
+                false => quote!(#ty : #trait_<Output = #ty>),
+            }
         });
         quote! {
             #[automatically_derived]
